@@ -89,6 +89,30 @@ func (vm *vm) suspend(ectx *execCtx, tryStackLen, iterStackLen, refStackLen uint
 	if len(vm.refStack) > int(refStackLen) {
 		ectx.refStack = append(ectx.refStack[:0], vm.refStack[refStackLen:]...)
 		vm.refStack = vm.refStack[:refStackLen]
+		// references to register-allocated variables address the value stack by absolute index: make
+		// them relative to the saved segment, resume() rebases them to where the segment is copied back
+		for _, r := range ectx.refStack {
+			if sr, ok := r.(stackRelocatable); ok {
+				sr.relocate((*[]Value)(&vm.stack), -(vm.sb - 1))
+			}
+		}
+	}
+}
+
+// stackRelocatable is implemented by the references that may point into the value stack.
+type stackRelocatable interface {
+	relocate(stack *[]Value, delta int)
+}
+
+func (r *stashRef) relocate(stack *[]Value, delta int) {
+	if r.v == stack {
+		r.idx += delta
+	}
+}
+
+func (r *thisRef) relocate(stack *[]Value, delta int) {
+	if r.v == stack {
+		r.idx += delta
 	}
 }
 
@@ -108,6 +132,11 @@ func (vm *vm) resume(ctx *execCtx) {
 	}
 	vm.tryStack = append(vm.tryStack, ctx.tryStack...)
 	vm.iterStack = append(vm.iterStack, ctx.iterStack...)
+	for _, r := range ctx.refStack {
+		if sr, ok := r.(stackRelocatable); ok {
+			sr.relocate((*[]Value)(&vm.stack), sp)
+		}
+	}
 	vm.refStack = append(vm.refStack, ctx.refStack...)
 }
 
